@@ -2,6 +2,7 @@ package main
 
 import (
 	"bufio"
+	"crypto/tls"
 	"fmt"
 	"io"
 	"strings"
@@ -104,7 +105,42 @@ func (s *recSession) Status(mailbox string, options *imap.StatusOptions) (*imap.
 	if err := s.rec("Status", hx([]byte(mailbox))+" "+fmtStatusOptions(options)); err != nil {
 		return nil, err
 	}
-	return &imap.StatusData{Mailbox: mailbox}, nil
+	return stubStatusData(mailbox, options), nil
+}
+
+// stubStatusData answers every requested item (the server's STATUS writer dereferences them).
+func stubStatusData(mailbox string, o *imap.StatusOptions) *imap.StatusData {
+	d := &imap.StatusData{Mailbox: mailbox}
+	if o == nil {
+		return d
+	}
+	n3, n1, n0, lim := uint32(3), uint32(1), uint32(0), uint32(1000)
+	sz, dst := int64(1234), int64(0)
+	if o.NumMessages {
+		d.NumMessages = &n3
+	}
+	if o.UIDNext {
+		d.UIDNext = 10
+	}
+	if o.UIDValidity {
+		d.UIDValidity = 1
+	}
+	if o.NumUnseen {
+		d.NumUnseen = &n1
+	}
+	if o.NumDeleted {
+		d.NumDeleted = &n0
+	}
+	if o.Size {
+		d.Size = &sz
+	}
+	if o.AppendLimit {
+		d.AppendLimit = &lim
+	}
+	if o.DeletedStorage {
+		d.DeletedStorage = &dst
+	}
+	return d
 }
 func (s *recSession) Append(mailbox string, r imap.LiteralReader, options *imap.AppendOptions) (*imap.AppendData, error) {
 	b, _ := io.ReadAll(r)
@@ -386,6 +422,10 @@ type stubCfg struct {
 	full     bool // session implements Move/Namespace/Unauthenticate
 	fail     map[string]error
 	onCall   func(s *recSession, name string)
+	// implicitTLS: Server.Serve is handed *tls.Conn connections (tls.Server over the in-memory
+	// pipe); clients must speak TLS (memTLSClientConfig). startTLS: Options.TLSConfig is set.
+	implicitTLS bool
+	startTLS    bool
 }
 
 func newStubServer(cfg stubCfg) *testServer {
@@ -410,9 +450,21 @@ func newStubServer(cfg stubCfg) *testServer {
 		Caps:         cfg.caps,
 		InsecureAuth: cfg.insecure,
 		Logger:       logSink{ts},
+		TLSConfig:    stubStartTLSConfig(cfg),
 	})
-	go ts.srv.Serve(ts.ln)
+	if cfg.implicitTLS {
+		go ts.srv.Serve(tlsMemListener{ts.ln, memTLSServerConfig()})
+	} else {
+		go ts.srv.Serve(ts.ln)
+	}
 	return ts
+}
+
+func stubStartTLSConfig(cfg stubCfg) *tls.Config {
+	if cfg.startTLS {
+		return memTLSServerConfig()
+	}
+	return nil
 }
 
 func (ts *testServer) close() { ts.srv.Close() }
